@@ -11,6 +11,8 @@ import (
 	"io"
 	"testing"
 
+	"github.com/datastax/go-cassandra-native-protocol/datatype"
+	"github.com/datastax/go-cassandra-native-protocol/frame"
 	"github.com/datastax/go-cassandra-native-protocol/message"
 	"github.com/datastax/go-cassandra-native-protocol/primitive"
 	"pgregory.net/rapid"
@@ -120,4 +122,196 @@ func sizeClass(n int) string {
 
 func TestC01(t *testing.T) {
 	rapid.Check(t, c01Property)
+}
+
+// Shape enumeration: every subset of the optional fields of QueryOptions (2^10 incl. DSE ones, filtered by what the
+// version's specification defines), of Batch (2^4) and of RowsMetadata (2^5), for every version and for QUERY / EXECUTE /
+// BATCH / ROWS / PREPARED, with fixed small field values. Complements the random generator: no subset is left to chance.
+func forEachShape(check func(v primitive.ProtocolVersion, m message.Message, what string) bool) {
+	i64 := int64(-42)
+	i32 := int32(77)
+	serial := primitive.ConsistencyLevelLocalSerial
+	for _, v := range allVersions {
+		// --- QueryOptions: bit i of mask selects optional field i
+		for mask := 0; mask < 1<<10; mask++ {
+			o := &message.QueryOptions{Consistency: primitive.ConsistencyLevelQuorum}
+			valid := true
+			if mask&1 != 0 {
+				o.PositionalValues = []*primitive.Value{primitive.NewValue([]byte{1}), primitive.NewNullValue()}
+			}
+			if mask&2 != 0 {
+				if mask&1 != 0 || !gen.AtLeast(v, 3) {
+					valid = false // positional xor named; names from v3
+				}
+				o.NamedValues = map[string]*primitive.Value{"a": primitive.NewValue([]byte{2})}
+			}
+			if mask&4 != 0 {
+				o.SkipMetadata = true
+			}
+			if mask&8 != 0 {
+				o.PageSize = 100
+			}
+			if mask&16 != 0 {
+				o.PagingState = []byte{9, 9}
+			}
+			if mask&32 != 0 {
+				o.SerialConsistency = &serial
+			}
+			if mask&64 != 0 {
+				if !gen.AtLeast(v, 3) {
+					valid = false
+				}
+				o.DefaultTimestamp = &i64
+			}
+			if mask&128 != 0 {
+				if !gen.HasKeyspaceFlag(v) {
+					valid = false
+				}
+				o.Keyspace = "ks"
+			}
+			if mask&256 != 0 {
+				if !gen.HasNowInSeconds(v) {
+					valid = false
+				}
+				o.NowInSeconds = &i32
+			}
+			if mask&512 != 0 {
+				if !gen.IsDse(v) {
+					valid = false
+				}
+				o.ContinuousPagingOptions = &message.ContinuousPagingOptions{MaxPages: 3, PagesPerSecond: 4}
+				if v == primitive.ProtocolVersionDse2 {
+					o.ContinuousPagingOptions.NextPages = 5
+				}
+				if mask&8 != 0 {
+					o.PageSizeInBytes = true
+				}
+			}
+			if !valid {
+				continue
+			}
+			if !check(v, &message.Query{Query: "SELECT", Options: o}, fmt.Sprintf("QUERY options mask %#x", mask)) {
+				return
+			}
+			ex := &message.Execute{QueryId: []byte{1, 2}, Options: o}
+			if gen.HasResultMetadataId(v) {
+				ex.ResultMetadataId = []byte{3}
+			}
+			if !check(v, ex, fmt.Sprintf("EXECUTE options mask %#x", mask)) {
+				return
+			}
+		}
+		// --- Batch
+		for mask := 0; mask < 1<<4; mask++ {
+			b := &message.Batch{Type: primitive.BatchTypeUnlogged, Consistency: primitive.ConsistencyLevelOne,
+				Children: []*message.BatchChild{{Query: "INSERT", Values: []*primitive.Value{primitive.NewValue([]byte{1})}}, {Id: []byte{7}}}}
+			valid := true
+			if mask&1 != 0 {
+				b.SerialConsistency = &serial
+				valid = valid && gen.AtLeast(v, 3)
+			}
+			if mask&2 != 0 {
+				b.DefaultTimestamp = &i64
+				valid = valid && gen.AtLeast(v, 3)
+			}
+			if mask&4 != 0 {
+				b.Keyspace = "ks"
+				valid = valid && gen.HasKeyspaceFlag(v)
+			}
+			if mask&8 != 0 {
+				b.NowInSeconds = &i32
+				valid = valid && gen.HasNowInSeconds(v)
+			}
+			if valid && !check(v, b, fmt.Sprintf("BATCH mask %#x", mask)) {
+				return
+			}
+		}
+		// --- RowsMetadata
+		for mask := 0; mask < 1<<5; mask++ {
+			md := &message.RowsMetadata{ColumnCount: 2}
+			valid := true
+			if mask&1 != 0 {
+				md.Columns = []*message.ColumnMetadata{{Keyspace: "k", Table: "t", Name: "a", Type: datatype.Int}, {Keyspace: "k", Table: "t", Name: "b", Type: datatype.NewList(datatype.Varchar)}}
+				if mask&2 != 0 {
+					md.Columns[1].Table = "other" // no global table spec
+				}
+			} else if mask&2 != 0 {
+				continue
+			}
+			if mask&4 != 0 {
+				md.PagingState = []byte{1}
+			}
+			if mask&8 != 0 {
+				md.NewResultMetadataId = []byte{2}
+				valid = valid && gen.HasResultMetadataId(v)
+			}
+			if mask&16 != 0 {
+				md.ContinuousPageNumber = 3
+				md.LastContinuousPage = mask&4 != 0
+				valid = valid && gen.IsDse(v)
+			}
+			if !valid {
+				continue
+			}
+			rows := &message.RowsResult{Metadata: md, Data: message.RowSet{{[]byte{0, 0, 0, 1}, nil}, {nil, []byte{}}}}
+			if !check(v, rows, fmt.Sprintf("ROWS metadata mask %#x", mask)) {
+				return
+			}
+			if mask&16 == 0 {
+				pr := &message.PreparedResult{PreparedQueryId: []byte{1}, VariablesMetadata: &message.VariablesMetadata{}, ResultMetadata: md}
+				if gen.HasResultMetadataId(v) {
+					pr.ResultMetadataId = []byte{4}
+				}
+				if gen.AtLeast(v, 4) {
+					pr.VariablesMetadata.PkIndices = []uint16{0}
+					pr.VariablesMetadata.Columns = []*message.ColumnMetadata{{Keyspace: "k", Table: "t", Name: "p", Type: datatype.Uuid}}
+				}
+				if !check(v, pr, fmt.Sprintf("PREPARED result metadata mask %#x", mask)) {
+					return
+				}
+			}
+		}
+	}
+}
+
+func TestC01Shapes(t *testing.T) {
+	rec := stats.For("C01")
+	sh, nsh := shard()
+	idx := 0
+	var n int64
+	forEachShape(func(v primitive.ProtocolVersion, m message.Message, what string) bool {
+		idx++
+		if idx%nsh != sh {
+			return true
+		}
+		for _, comp := range []compKind{compNone, compLz4} {
+			f := frame.NewFrame(v, 5, m.DeepCopyMessage())
+			if comp != compNone {
+				f.SetCompress(true)
+			}
+			codec := newRawCodec(comp)
+			enc, err := encodeFrame(codec, f)
+			if err != nil {
+				rec.Violation("shape-encode", fmt.Sprintf("v%d %s: EncodeFrame failed: %v", v, what, err))
+				t.Errorf("v%d %s: EncodeFrame failed: %v", v, what, err)
+				return false
+			}
+			dec, err := codec.DecodeFrame(bytes.NewReader(enc))
+			if err != nil {
+				rec.Violation("shape-decode", fmt.Sprintf("v%d %s: DecodeFrame failed: %v (bytes %x)", v, what, err, clipBytes(enc)))
+				t.Errorf("v%d %s: DecodeFrame failed: %v", v, what, err)
+				return false
+			}
+			if d := diffFrames(f, dec); d != "" {
+				rec.Violation("shape-roundtrip", fmt.Sprintf("v%d %s comp=%s: %s", v, what, comp, d))
+				t.Errorf("v%d %s comp=%s: round trip changed the frame: %s", v, what, comp, d)
+				return false
+			}
+			n++
+		}
+		return true
+	})
+	rec.Bulk(n, n, "shapes")
+	rec.Exhaustive("optional-field subsets of QueryOptions/Batch/RowsMetadata x versions x {none,lz4} (this shard's share)", n)
+	rec.AddSample("shape enumeration: e.g. v5 QUERY with options mask 0x1a9 = {positional values, page size, serial consistency, keyspace, now-in-seconds}")
 }
